@@ -143,8 +143,8 @@ def _get_sampler(check: Check, ci):
             if isinstance(c, ast.Call) and isinstance(c.func, ast.Attribute) and c.func.attr == 'append' and c.args and isinstance(c.args[0], ast.Tuple):
               e = c.args[0].elts
               okp = len(e) == 3 and txt(e[0]) == cid and txt(e[1]) == cds and isinstance(e[2], ast.Subscript) and txt(
-                  e[2].value) == 'client_rngs' and txt(e[2].slice) == i
-  check.ob('R-CHOICE.pair', sample, 'clients.append((client_id, client_dataset, client_rngs[i]))', okp,
+                  e[2].value) == _keys_var(ff) and txt(e[2].slice) == i
+  check.ob('R-CHOICE.pair', sample, 'append((client_id, client_dataset, keys[i]))', okp,
            'the i-th sampled client receives its own dataset and the i-th key')
   # snapshot of ids at construction
   init = ci.method('__init__')
@@ -153,6 +153,14 @@ def _get_sampler(check: Check, ci):
   rn = any(isinstance(st, ast.Assign) and txt(st.targets[0]) == 'self._round_num' and txt(st.value) == 'start_round_num' for st in init.node.body)
   check.ob('R-SEED.init', init, 'self._client_ids = list(fd.client_ids()); self._round_num = start_round_num', snap and rn,
            'the population is fixed at construction (deterministic order of client_ids()) and the sampler starts at the requested round')
+
+
+def _keys_var(ff: FuncFlow):
+  for ds in ff.rd.defs_at.values():
+    for d in ds:
+      if isinstance(d.value, ast.Call) and ff.ext(d.value.func) == 'jax.random.split':
+        return d.name
+  return None
 
 
 def _keys(check: Check, sample: FuncInfo, ff: FuncFlow):
@@ -179,7 +187,7 @@ def _shuffled_sampler(check: Check, ci):
       nx = [c for st in n.ast.body for c in ast.walk(st) if isinstance(c, ast.Call) and txt(c.func) == 'next' and txt(c.args[0]) == 'self._shuffled_clients_iter']
       app = [c for st in n.ast.body for c in ast.walk(st) if isinstance(c, ast.Call) and isinstance(c.func, ast.Attribute) and c.func.attr == 'append']
       idx = n.ast.target.id if isinstance(n.ast.target, ast.Name) else None
-      key_ok = any(isinstance(c.args[0], ast.Tuple) and len(c.args[0].elts) == 3 and txt(c.args[0].elts[2]) == f'client_rngs[{idx}]' for c in app if c.args)
+      key_ok = any(isinstance(c.args[0], ast.Tuple) and len(c.args[0].elts) == 3 and txt(c.args[0].elts[2]) == f'{_keys_var(ff)}[{idx}]' for c in app if c.args)
       ok = len(nx) == 1 and len(app) == 1 and key_ok
   check.ob('R-STREAM', sample, 'for i in range(num_clients): next(stream)', ok,
            'each round consumes exactly num_clients items of the stream and pairs the i-th with the i-th key')
@@ -216,8 +224,10 @@ def _prs(check: Check):
   uses_round = False
   for _, rv in ff.returns():
     if isinstance(rv, ast.Call) and ff.ext(rv.func) == 'numpy.random.RandomState' and rv.args:
+      start_vars = {d.name for ds in ff.rd.defs_at.values() for d in ds if d.value is not None and any(
+          isinstance(c, ast.Call) and ff.ext(c.func) == 'numpy.random.RandomState' and c.args and ff.param_of(c.args[0]) == p_seed for c in ast.walk(d.value))}
       uses_round = any(isinstance(x, ast.Name) and x.id == p_round for x in ast.walk(rv.args[0])) and any(
-          isinstance(x, ast.Name) and x.id == 'mlcg_start' for x in ast.walk(rv.args[0]))
+          isinstance(x, ast.Name) and x.id in start_vars for x in ast.walk(rv.args[0]))
   check.ob('R-SEED', fi, 'RandomState(f(seed, round))', only_rs and seeded and uses_round and not free,
            f'closed function of its two arguments: only explicitly seeded RandomState instances (ok={only_rs}), the seed seeds the '
            f'start value (ok={seeded}), the returned state depends on both start and round (ok={uses_round}), no free variables '
